@@ -18,7 +18,7 @@ TEXT = {
     "C06": ("Exhaustive depth-bounded navigation histories and long random walks; after every operation the Tree is compared with a fresh Tree at the model index and with the reference forest.", "history checker against a sequential navigation model"),
     "C07": ("sort/canonicalise/repair tools on scrambled collections: permutation, key order, idempotence, start offsets, same trees and genotypes after the repair pipeline, reference mutation parents.", "reference-model post-conditions + metamorphic scrambles"),
     "C08": ("Every statistic is compared with a naive engine written from the documented definitions and with first-principles pairwise definitions; window refinement additivity; threaded == single-threaded; TSan on the GIL-releasing methods.", "naive-definition oracle, metamorphic window law, ThreadSanitizer"),
-    "C09": ("A typed catalogue of ~300 public calls x argument slots x boundary values, random programs on corrupted tables and (thorough) allocation-failure enumeration run on an ASan+UBSan build; any sanitizer report, abort, SystemError, confirmed hang or accepted out-of-range identifier is a violation.", "compiler sanitizers + process-status oracle over adversarial API workloads; LD_PRELOAD allocation-fault injection"),
+    "C09": ("A typed catalogue of ~300 public calls x argument slots x boundary values, random programs on corrupted tables and allocation-failure enumeration run on an ASan+UBSan build, plus slices of the same workloads on the plain build under valgrind memcheck (uninitialised-memory use); any sanitizer or memcheck report in tskit code, abort, SystemError, confirmed hang or accepted out-of-range identifier is a violation.", "compiler sanitizers (ASan+UBSan) + valgrind memcheck + process-status oracle over adversarial API workloads; LD_PRELOAD allocation-fault injection"),
     "C10": ("Every truncation offset, every structural byte x 4 patterns, arithmetic-aware descriptor edits and random data edits of generated files, on four read paths, judged through an independent parse of the file layout.", "fault enumeration over file bytes with layout-aware oracle"),
     "C11": ("keep/delete_intervals, trims, delete_sites, split_edges, decapitate, delete_older, extend_haplotypes compared with documentation-derived expectations per position and per retained row incl. all metadata.", "reference-model post-conditions on editing operations"),
     "C12": ("Random struct/JSON schemas and conforming/non-conforming objects: round trip vs a reference codec written from the docs, byte layout, numpy view, schema string round trip, rejection of invalid objects and schemas.", "reference codec oracle over generated schemas/values"),
